@@ -788,7 +788,7 @@ def _region_body_ok(kind, body):
 
 def _rand_paren_body(rnd, depth=0):
     atoms = [';', ';', 'a', 'b', '1', ',', ' ', ' ', '\n', "'s;'", "'it''s'", '/*;*/', '-- ;\n', '+', '=', '"q;"', 'x.y', '::',
-             'case when a then b end', 'select 1', '$$;$$', '\x00', 'é']
+             'case when a then b end', 'select 1', ' $$;$$ ', '\x00', 'é']     # $$ needs a non-word character before it
     out = []
     for _ in range(rnd.randint(1, 6)):
         if depth < 2 and rnd.random() < 0.2:
